@@ -10,6 +10,7 @@ class LTLExplainer(LtlAstVisitor):
 
     def explain(self, spec):
         self.spec = spec
+        self.explanations = dict()
         for spec in self.spec.specs:
             top_signal = self.spec.results[spec]
             if top_signal[0] < 0:
